@@ -1,6 +1,7 @@
 import Driver.Common
 import Rpki.Model.XmlDoc
 import Rpki.Model.PubMsg
+import Rpki.Model.IdxMsg
 namespace Driver.C11
 open Driver Rpki.Xml Rpki.XmlDoc
 
@@ -105,9 +106,49 @@ def handlePubx (toks : List String) (impl : String) : Verdict :=
             else none)
         | _ => if impl = "write-err" then some "writing failed" else some "unreadable result" }
 
+
+/-! ### RFC 8183 messages (`idx`) -/
+
+def parseOpt (s : String) : Option (Option (List Nat)) := if s = "~" then some none else (unhx s).map some
+
+def parseIdx (toks : List String) : Option Rpki.IdxMsg.Msg :=
+  match toks with
+  | ["creq", h, t, c] => do some (.childRequest (← unhx h) (← parseOpt t) (← unhx c))
+  | ["presp", p, ch, u, t, c] => do some (.parentResponse (← unhx p) (← unhx ch) (← unhx u) (← parseOpt t) (← unhx c))
+  | ["preq", h, t, c] => do some (.publisherRequest (← unhx h) (← parseOpt t) (← unhx c))
+  | ["rresp", h, u, b, n, t, c] => do some (.repositoryResponse (← unhx h) (← unhx u) (← unhx b) (← parseOpt n) (← parseOpt t) (← unhx c))
+  | _ => none
+
+def describeIdx : Rpki.IdxMsg.Msg → String
+  | .childRequest h t c => s!"creq:{hxOut h}:{showTag t}:{hxOut c}"
+  | .parentResponse p ch u t c => s!"presp:{hxOut p}:{hxOut ch}:{hxOut u}:{showTag t}:{hxOut c}"
+  | .publisherRequest h t c => s!"preq:{hxOut h}:{showTag t}:{hxOut c}"
+  | .repositoryResponse h u b n t c => s!"rresp:{hxOut h}:{hxOut u}:{hxOut b}:{showTag n}:{showTag t}:{hxOut c}"
+
+def handleIdx (toks : List String) (impl : String) : Verdict :=
+  match parseIdx toks with
+  | none => badOp "idx args"
+  | some m =>
+    let doc := Rpki.IdxMsg.write m
+    let modelBack := match Rpki.IdxMsg.read doc with | some b => describeIdx b | none => "err"
+    let want := describeIdx m
+    { model := some s!"{hexN doc} {modelBack}",
+      oracle :=
+        match impl.splitOn " " with
+        | [h, back] =>
+          (match hexB h with
+          | none => some "unreadable"
+          | some x =>
+            if x ≠ doc then some "the document written for an API-made RFC 8183 message is not the RFC 8183 document for its fields (element or attribute names, namespace, version, escaping or Base64)"
+            else if back = "err" then some "the library rejects the RFC 8183 document it wrote for an API-made message"
+            else if back ≠ want then some "the written RFC 8183 message parses back to other field values"
+            else none)
+        | _ => some "unreadable result" }
+
 def handle (toks : List String) (impl : String) : Verdict :=
   match toks with
   | "pubx" :: rest => handlePubx rest impl
+  | "idx" :: rest => handleIdx rest impl
   | ["xml", kind, origin, _] =>
     if impl = "panic" then { oracle := some s!"the {kind} parser or writer panicked" }
     else if impl = "err" then
